@@ -82,7 +82,7 @@ func lexSpec(src string) ([]tok, error) {
 			out = append(out, tok{"str", src[i+1 : j]})
 			i = j + 1
 		default:
-			ops := []string{"<==>", "==>", "::", "==", "!=", "<=", ">=", "&&", "||", "<", ">", "+", "-", "*", "/", "%", "!", "(", ")", "[", "]", ".", ",", ":", "?", "{", "}", "=", "@"}
+			ops := []string{"<==>", "==>", "::", "==", "!=", "<=", ">=", "&&", "||", "&", "<", ">", "+", "-", "*", "/", "%", "!", "(", ")", "[", "]", ".", ",", ":", "?", "{", "}", "=", "@"}
 			matched := false
 			for _, o := range ops {
 				if strings.HasPrefix(src[i:], o) {
@@ -347,6 +347,10 @@ func (p *sparser) unary() SExpr {
 	if p.isOp("*") {
 		p.next()
 		return &SUn{"*", p.unary()}
+	}
+	if p.isOp("&") {
+		p.next()
+		return &SUn{"&", p.unary()}
 	}
 	return p.postfix()
 }
